@@ -13,6 +13,6 @@ SPEC_PART = dict(
            "values, arbitrary unused bytes and undefined flag bits, reference-implementation big-endian double and float formats "
            "(Props/C13_tdigest.v); tie: spec-encoded images of every variant (and the two reference files) are fed to the crate: k, "
            "total_weight, min, max, is_empty, centroids bit for bit (or a valid merge pass of buffered + centroids), then queries against "
-           "the exact model, updates, merges, round trips. NOT covered: there is no theorem about a layout-level ENCODER (none is "
+           "the exact model (quantile: where q*total is exact, else the property oracle), updates, merges, round trips; images with decimal means, min/max up to 1e15 away from the end means, and MORE buffered values than 4*capacity (fixed 5ca8d9c) are included. NOT covered: there is no theorem about a layout-level ENCODER (none is "
            "defined) -- 'every image a foreign writer can emit' is approximated by 'every byte string the layout decoder reads as an "
            "admissible state'; the bit-level float functions (Base/TDigestBits.v) are shared by the model and the layout decoder")
